@@ -208,6 +208,20 @@ def three_d(ctx, k, K):
                     ok, T = call(f, s)
                     if ok:
                         ctx.fail(cid, site, 'no-raise', dict(P, s=sn), '%s accepted s=%s' % (en, sn))
+        # ---------------- vector of s containing a value outside [0,1]: the corresponding scalar call raises, so must this
+        for on, so in S_OUT:
+            bad = [0.25, so, 0.75]
+            for en, f, site in (('SO3.interp/vec-out', lambda: sm.SO3(R1.copy()).interp(list(bad), start=sm.SO3(R0.copy())), 'SO3.interp'),
+                                ('SE3.interp/vec-out', lambda: sm.SE3(ref.rt(R1, (1.0, 2, 3))).interp(np.array(bad)), 'SE3.interp'),
+                                ('UnitQuaternion.interp/vec-out', lambda: sm.UnitQuaternion(q0.copy()).interp(list(bad), dest=sm.UnitQuaternion(q1.copy())), 'UnitQuaternion.interp'),
+                                ('UnitQuaternion.interp/vec-out/nodest', lambda: sm.UnitQuaternion(q1.copy()).interp(np.array(bad)), 'UnitQuaternion.interp')):
+                cid = '%s/%s/s=%s' % (base, en, on)
+                if not ctx.want(cid):
+                    continue
+                ctx.case(cid, key=cid)
+                ok, r = call(f)
+                if ok:
+                    ctx.fail(cid, site, 'no-raise', dict(P0, entry=en.split('/')[0], mode='vector-s', s=on), '%s accepted a vector of s containing %s' % (en, on))
         # ---------------- vector of s
         sv = [s for _, s in SL[:7]]
         for en, f, one, site in (
